@@ -148,7 +148,7 @@ def build(data):
             elif form == "star":
                 if any(x.get("import") for x in t["ns"]):
                     continue
-                t["ns"].append({"name": None, "file": sp, "kind": kind, "import": ["*"], "inline": []})
+                t["ns"].append({"name": None, "file": sp, "kind": kind, "import": ["*"], "inline": [], "_names": list(tdefs)})
                 for d in tdefs:
                     body.append(["callimp", d, "'s%d'" % next(_cnt)])
                 for d in ("f1", "f3"):
@@ -162,7 +162,8 @@ def build(data):
                 if t["role"] != "lib" and not any(x.get("import") for x in t["ns"]) and g.chance(50):
                     # unqualified use: the def written inside the tag still outranks a file def of the same name
                     imp = ["*"] if g.chance(50) else sorted(set(inl + (tdefs[:1] if withfile else [])))
-                t["ns"].append({"name": name, "file": sp if withfile else None, "kind": kind, "import": imp, "inline": inl})
+                t["ns"].append({"name": name, "file": sp if withfile else None, "kind": kind, "import": imp, "inline": inl,
+                                "_names": list(tdefs) if withfile else []})
                 body.append(["callns", name, inl[0], "'n%d'" % next(_cnt)])
                 if imp:
                     body.append(["callimp", inl[0], "'j%d'" % next(_cnt)])
@@ -198,6 +199,16 @@ def build(data):
             else:
                 body.append(["modcall", "both", "'mb'"])
             t["ns"].append({"name": "mod", "module": "vf.gen.c07_helper", "file": None, "import": None, "inline": inl})
+        # a def written inside a <%namespace> tag may call, unqualified, what the template imports from another
+        # namespace - whichever of the two tags comes first
+        imps = [x for x in t["ns"] if x.get("import")]
+        if imps:
+            inline_names = [d for x in t["ns"] for d in x["inline"]]
+            avail = [d for d in (imps[0]["import"] if imps[0]["import"] != ["*"] else imps[0].get("_names", []))
+                     if d not in inline_names and d != "*"]
+            for x in t["ns"]:
+                if x["inline"] and x is not imps[0] and avail and g.chance(60):
+                    x["inline_calls"] = g.pick(avail)
         body.append(["text", "]"])
         t["body"] = body
     # inheritance of the entry template from a later one that holds an inheritable namespace
@@ -305,7 +316,8 @@ def emit_template(t, shadow=False):
             attrs += ' inheritable="True"'
         if ns["inline"]:
             src.append("<%namespace" + attrs + ">" + "".join(
-                '<%%def name="%s(a=\'-\')">{inline.%s.%s: a=${a} cv=${cv}}</%%def>' % (d, ns["name"], d) for d in ns["inline"]) + "</%namespace>")
+                '<%%def name="%s(a=\'-\')">{inline.%s.%s: a=${a} cv=${cv}}%s</%%def>'
+                % (d, ns["name"], d, ("${%s('in')}" % ns["inline_calls"]) if ns.get("inline_calls") else "") for d in ns["inline"]) + "</%namespace>")
         else:
             src.append("<%namespace" + attrs + "/>")
     for name in sorted(t["defs"]):
@@ -402,6 +414,9 @@ class Model:
         m = self.ns_member(t, ns, name)
         if m[0] == "inline":
             self.out.append("{inline.%s.%s: a=%s cv=%s}" % (m[1], m[2], arg, CTX["cv"]))
+            if ns.get("inline_calls"):
+                impns = [x for x in t["ns"] if x.get("import")][0]
+                self.call_member(t, impns, ns["inline_calls"], "in", ctx)
         else:
             _, uri, tgt, nm = m
             # a def reached through a namespace runs with that template's own self/local
